@@ -114,7 +114,7 @@ Lemma eval_s_S : forall (ae : N -> bool) (flag : bool) (dl : list (N * list str)
           let rtb := match home with Some tid => ae tid | None => rt end in
           let frt := match home with Some _ => Some rt | None => None end in
           match eval_ss ae flag dl tt bt n ce' rtb mu (Some (CC body ce frt)) None (pr ++ r) mbody with None => None
-          | Some (o, _, _) => Some (o, r, mu)
+          | Some (o, _, _) => Some (out_piece (on_now ae ce rt) (wrap rt o), r, mu)
           end end end end
       | SFilterBlock f args body =>
           match eval_ss ae flag dl tt bt n ce rt mu k sup r body with None => None | Some (o, _, _) =>
@@ -502,7 +502,7 @@ Section C16.
         pose proof (IHss ce' mu _ _ None (pr1 ++ r1) (pr2 ++ r2) mbody Hce' Hmu Hk' I Hr' Hb) as Rss.
         both Rss as x1 x2.
         destruct x1 as [[o1 r1'] m1], x2 as [[o2 r2'] m2]. cbn in Rss. destruct Rss as (Ho & _).
-        cbn [orel]. apply sres_intro; assumption.
+        rewrite on_now_on, on_now_off by assumption. cbn [orel out_piece wrap esc_str esc raw]. apply sres_intro; assumption.
       + cbn [oks16 ok_s] in Hs. fold oke16 oks16 in Hs.
         apply andb_true_iff in Hs as [Hs Hbody]. apply andb_true_iff in Hs as [Hf Hargs]. unf.
         pose proof (IHss ce mu k1 k2 sup r1 r2 body Hce Hmu Hk Hsup Hr Hbody) as Rb. both Rb as x1 x2.
@@ -828,7 +828,7 @@ Section C15.
         assert (Hk' : k_on (Some (CC body ce match home with Some _ => Some true | None => None end))).
         { cbn. split; [assumption|]. split; [assumption|]. destruct home; [reflexivity|exact I]. }
         destruct (IHss ce' mu _ None (pr ++ r) mbody _ Hce' Hmu Hk' I Hr' Hb Ess) as (Ho & _).
-        apply sres_ok_intro; assumption.
+        unfold ce_on in Hce. rewrite Hce. cbn [out_piece wrap esc_str esc raw]. apply sres_ok_intro; assumption.
       + cbn [oks15 ok_s] in Hs. fold oke15 oks15 in Hs.
         apply andb_true_iff in Hs as [Hs Hbody]. apply andb_true_iff in Hs as [Hf Hargs].
         destruct (ev_ss n ce true mu k sup r body) as [[[o r'] m']|] eqn:Ess; [|discriminate].
